@@ -312,7 +312,7 @@ Qed.
 
 Lemma attrs_diff_loop_nonneg : forall a1 a2, 0 <= attrs_diff_loop a1 a2.
 Proof.
-  induction a1 as [|x a1 IH]; intros [|y a2]; simpl; try lia.
+  induction a1 as [|x a1 IH]; intros [|y a2]; simpl; try lia. unfold sds_attr_info_counted, sds_attr_number_counted, vs_header_counted in *. 
   specialize (IH a2).
   destruct (negb (a_type x =? a_type y) || negb (Z.of_nat (length (a_vals x)) =? Z.of_nat (length (a_vals y))) || negb (zlist_eqb (a_name x) (a_name y))); [lia|].
   destruct (zlist_eqb (a_vals x) (a_vals y)); lia.
@@ -323,14 +323,14 @@ Proof.
   unfold diff_sds_m. destruct (negb (t1 =? t2)); [lia|]. destruct (negb (zlist_eqb d1 d2)); [lia|].
   destruct v1 as [|x v1]; [lia|]. destruct v2 as [|y v2]; [lia|].
   pose proof (ad_count_nonneg t1 (zprod d1) (x :: v1) (y :: v2)).
-  unfold sds_attrs_diff. destruct (negb _); [lia|]. pose proof (attrs_diff_loop_nonneg a1 a2). lia.
+  unfold sds_attrs_diff. unfold sds_attr_info_counted, sds_attr_number_counted, vs_header_counted in *. destruct (negb _); [lia|]. pose proof (attrs_diff_loop_nonneg a1 a2). lia.
 Qed.
 Lemma diff_gr_m_nonneg t1 c1 x1 y1 v1 t2 c2 x2 y2 v2 : 0 <= diff_gr_m t1 c1 x1 y1 v1 t2 c2 x2 y2 v2.
 Proof.
   unfold diff_gr_m. destruct (_ || _); [lia|]. destruct (zlist_eqb v1 v2); [lia|]. apply ad_count_nonneg.
 Qed.
 Lemma diff_vs_m_nonneg n1 f1 v1 n2 f2 v2 : 0 <= diff_vs_m n1 f1 v1 n2 f2 v2.
-Proof. unfold diff_vs_m. destruct (_ || _); [lia|]. destruct (zlist_eqb v1 v2); lia. Qed.
+Proof. unfold diff_vs_m. unfold sds_attr_info_counted, sds_attr_number_counted, vs_header_counted in *. destruct (_ || _); [lia|]. destruct (zlist_eqb v1 v2); lia. Qed.
 
 Ltac c19_cases :=
   repeat match goal with |- context [match ?x with _ => _ end] => destruct x end.
@@ -704,7 +704,7 @@ Proof.
   intros nt lo hi d v1 v2 a1 a2 R H1 H2 L N. unfold diff_sds_m. rewrite Z.eqb_refl, zlist_eqb_refl. simpl.
   pose proof (ad_count_pos nt lo hi v1 v2 (zprod d) R H1 H2 L N) as P.
   assert (A : 0 <= sds_attrs_diff a1 a2).
-  { unfold sds_attrs_diff. destruct (negb _); [lia | apply attrs_diff_loop_nonneg]. }
+  { unfold sds_attrs_diff. unfold sds_attr_info_counted, sds_attr_number_counted, vs_header_counted in *. destruct (negb _); [lia | apply attrs_diff_loop_nonneg]. }
   destruct v1 as [|x v1]; destruct v2 as [|y v2]; try discriminate; [contradiction|]. lia.
 Qed.
 
@@ -919,25 +919,76 @@ Proof.
     rewrite <- E, fmt_nat_val by lia. reflexivity.
 Qed.
 
-(** a token list: each number preceded by non-empty white space *)
-Definition render (toks : list (list Z * Z)) : list Z := flat_map (fun t => fst t ++ fmt_dec (snd t)) toks.
+(** a token list: each number, in any spelling fscanf %d reads as that number, preceded by non-empty white space.
+    A token is (white space, (text, value)). *)
 Definition good_sep (ws : list Z) : Prop := ws <> [] /\ Forall (fun c => is_space c = true) ws.
+Definition spelled (text : list Z) (v : Z) : Prop :=
+  forall ws rest, Forall (fun c => is_space c = true) ws -> no_digit_head rest -> scan_int (ws ++ text ++ rest) = Some (v, rest).
+Definition token := (list Z * (list Z * Z))%type.
+Definition tval (t : token) : Z := snd (snd t).
+Definition good_tok (t : token) : Prop := good_sep (fst t) /\ spelled (fst (snd t)) (tval t).
+Definition render (toks : list token) : list Z := flat_map (fun t => fst t ++ fst (snd t)) toks.
+Definition canon (ws : list Z) (z : Z) : token := (ws, (fmt_dec z, z)).
 
 Lemma space_not_digit c : is_space c = true -> is_digit c = false.
 Proof. intros H. destruct (is_digit c) eqn:E; [|reflexivity]. rewrite (digit_not_space c E) in H. discriminate. Qed.
 
-Lemma render_no_digit_head toks rest : Forall (fun t => good_sep (fst t)) toks -> no_digit_head rest -> no_digit_head (render toks ++ rest).
+Lemma spelled_canonical z : spelled (fmt_dec z) z.
+Proof. intros ws rest Hw Hr. apply scan_int_fmt_dec; assumption. Qed.
+
+Lemma fold_zeros : forall zs l, Forall (fun c => c = 48) zs -> fold_left dstep (zs ++ l) 0 = fold_left dstep l 0.
+Proof. induction zs as [|c zs IH]; intros l H; [reflexivity|]. inversion H; subst. cbn [app fold_left]. unfold dstep at 2. simpl. apply IH. assumption. Qed.
+
+Lemma zeros_digits zs : Forall (fun c => c = 48) zs -> Forall (fun c => is_digit c = true) zs.
+Proof. intros H. eapply Forall_impl; [|exact H]. intros c ->. reflexivity. Qed.
+
+(** a non-empty digit string (leading zeros allowed), with an optional sign, scans as its decimal value *)
+Lemma scan_int_digits ws D rest : Forall (fun c => is_space c = true) ws -> D <> [] -> Forall (fun c => is_digit c = true) D ->
+  no_digit_head rest -> scan_int (ws ++ D ++ rest) = Some (fold_left dstep D 0, rest).
 Proof.
-  intros H Hr. destruct toks as [|[ws z] toks]; [assumption|]. inversion H; subst. destruct H2 as [NE F]. simpl in *.
+  intros Hw NE HD Hr. destruct D as [|d l]; [contradiction|]. inversion HD; subst. unfold scan_int.
+  rewrite skip_space_app; [|assumption|cbn [app]; apply digit_not_space; assumption]. cbn [app].
+  assert (d =? 45 = false /\ d =? 43 = false) as [-> ->].
+  { unfold is_digit in H1. apply andb_true_iff in H1. destruct H1 as [A B]. apply Z.leb_le in A, B. split; apply Z.eqb_neq; lia. }
+  cbn [orb]. rewrite H1. change (d :: l ++ rest) with ((d :: l) ++ rest). rewrite scan_digits_app by assumption. reflexivity.
+Qed.
+
+Lemma scan_int_signed ws sg D rest : Forall (fun c => is_space c = true) ws -> sg = 45 \/ sg = 43 -> D <> [] ->
+  Forall (fun c => is_digit c = true) D -> no_digit_head rest ->
+  scan_int (ws ++ (sg :: D) ++ rest) = Some ((if sg =? 45 then - fold_left dstep D 0 else fold_left dstep D 0), rest).
+Proof.
+  intros Hw Hs NE HD Hr. destruct D as [|d l]; [contradiction|]. inversion HD; subst. unfold scan_int.
+  rewrite skip_space_app; [|assumption|cbn [app]; destruct Hs as [->| ->]; reflexivity]. cbn [app].
+  assert (B : (sg =? 45) || (sg =? 43) = true) by (destruct Hs as [->| ->]; reflexivity). rewrite B.
+  rewrite H1. change (d :: l ++ rest) with ((d :: l) ++ rest). rewrite scan_digits_app by assumption. reflexivity.
+Qed.
+
+(** zero-padded and explicitly signed spellings: 0012, -088, +5, 000 *)
+Lemma spelled_padded_lemma : forall zs n, Forall (fun c => c = 48) zs -> 0 <= n ->
+  spelled (zs ++ fmt_nat n) n /\ spelled (45 :: zs ++ fmt_nat n) (- n) /\ spelled (43 :: zs ++ fmt_nat n) n.
+Proof.
+  intros zs n Hz Hn.
+  assert (HD : Forall (fun c => is_digit c = true) (zs ++ fmt_nat n)) by (apply Forall_app; split; [apply zeros_digits; assumption | apply fmt_nat_digits; assumption]).
+  assert (NE : zs ++ fmt_nat n <> []) by (intros E; apply app_eq_nil in E; destruct E as [_ E]; exact (fmt_nat_nonempty n E)).
+  assert (V : fold_left dstep (zs ++ fmt_nat n) 0 = n) by (rewrite fold_zeros by assumption; apply fmt_nat_val; assumption).
+  split; [|split]; intros ws rest Hw Hr.
+  - rewrite scan_int_digits by assumption. rewrite V. reflexivity.
+  - rewrite (scan_int_signed ws 45) by (auto || assumption). rewrite V. reflexivity.
+  - rewrite (scan_int_signed ws 43) by (auto || assumption). rewrite V. reflexivity.
+Qed.
+
+Lemma render_no_digit_head toks rest : Forall good_tok toks -> no_digit_head rest -> no_digit_head (render toks ++ rest).
+Proof.
+  intros H Hr. destruct toks as [|[ws z] toks]; [assumption|]. inversion H; subst. destruct H2 as [[NE F] _]. simpl in *.
   destruct ws as [|w ws]; [contradiction|]. inversion F; subst. simpl. apply space_not_digit. assumption.
 Qed.
 
-Lemma scan_ints_render : forall toks bits rest, Forall (fun t => good_sep (fst t)) toks -> no_digit_head rest ->
-  scan_ints (length toks) bits (render toks ++ rest) = Some (map (fun t => swrap bits (snd t)) toks, rest).
+Lemma scan_ints_render : forall toks bits rest, Forall good_tok toks -> no_digit_head rest ->
+  scan_ints (length toks) bits (render toks ++ rest) = Some (map (fun t => swrap bits (tval t)) toks, rest).
 Proof.
-  induction toks as [|[ws z] toks IH]; intros bits rest H Hr; [reflexivity|].
-  inversion H; subst. cbn [length scan_ints render flat_map fst snd]. rewrite <- !app_assoc.
-  rewrite scan_int_fmt_dec; [|apply H2|apply render_no_digit_head; assumption].
+  induction toks as [|[ws [tx z]] toks IH]; intros bits rest H Hr; [reflexivity|].
+  inversion H; subst. destruct H2 as [[NE F] Sp]. cbn [length scan_ints render flat_map fst snd]. rewrite <- !app_assoc.
+  cbn [fst snd tval] in Sp. rewrite (Sp ws _ F) by (apply render_no_digit_head; assumption).
   fold (render toks). rewrite IH by assumption. reflexivity.
 Qed.
 
@@ -947,36 +998,36 @@ Proof. intros <-. induction a; simpl; auto. Qed.
 Definition import_range (outbits : Z) : Z * Z :=
   if outbits =? 8 then (-128, 127) else if outbits =? 16 then (-32768, 32767) else (-2147483648, 2147483647).
 
-Lemma import_shape_values_lemma : forall outbits tag w1 w2 w3 planes rows cols hdr data tail,
+Lemma import_shape_values_lemma : forall outbits tag (tp tr tc : token) planes rows cols hdr data tail,
   outbits = 8 \/ outbits = 16 \/ outbits = 32 ->
-  length tag = 4%nat -> good_sep w1 -> good_sep w2 -> good_sep w3 ->
+  length tag = 4%nat -> good_tok tp -> good_tok tr -> good_tok tc -> tval tp = planes -> tval tr = rows -> tval tc = cols ->
   1 <= planes <= 2147483647 -> 2 <= rows <= 2147483647 -> 2 <= cols <= 2147483647 ->
-  Forall (fun t => good_sep (fst t)) hdr -> Forall (fun t => good_sep (fst t)) data ->
+  Forall good_tok hdr -> Forall good_tok data ->
   Z.of_nat (length hdr) = 2 + ((if 1 <? planes then planes else 0) + rows + cols) ->
   Z.of_nat (length data) = planes * rows * cols ->
-  Forall (fun t => in_range (fst (import_range outbits)) (snd (import_range outbits)) (snd t)) data ->
+  Forall (fun t => in_range (fst (import_range outbits)) (snd (import_range outbits)) (tval t)) data ->
   no_digit_head tail ->
-  import_m outbits (tag ++ render [(w1, planes); (w2, rows); (w3, cols)] ++ render hdr ++ render data ++ tail)
-  = Some (spec_import planes rows cols (map snd data)).
+  import_m outbits (tag ++ render [tp; tr; tc] ++ render hdr ++ render data ++ tail)
+  = Some (spec_import planes rows cols (map tval data)).
 Proof.
-  intros outbits tag w1 w2 w3 planes rows cols hdr data tail Hb Ht G1 G2 G3 Hp Hr Hc Hh Hd Lh Ld Rd Htl.
+  intros outbits tag tp tr tc planes rows cols hdr data tail Hb Ht G1 G2 G3 Vp Vr Vc Hp Hr Hc Hh Hd Lh Ld Rd Htl.
   unfold import_m.
   assert (C : exists sb ob, import_conv outbits = Some (sb, ob) /\
-                            Forall (fun t => swrap ob (swrap sb (snd t)) = snd t) data).
+                            Forall (fun t => swrap ob (swrap sb (tval t)) = tval t) data).
   { destruct Hb as [ -> | [ -> | -> ] ].
     - exists 16, 8. split; [reflexivity|]. eapply Forall_impl; [|exact Rd]. intros t [A B].
-      change (-128 <= snd t) in A. change (snd t <= 127) in B. rewrite (swrap16_id (snd t)) by lia. apply swrap8_id. lia.
+      change (-128 <= tval t) in A. change (tval t <= 127) in B. rewrite (swrap16_id (tval t)) by lia. apply swrap8_id. lia.
     - exists 16, 16. split; [reflexivity|]. eapply Forall_impl; [|exact Rd]. intros t [A B].
-      change (-32768 <= snd t) in A. change (snd t <= 32767) in B. rewrite (swrap16_id (snd t)) by lia. apply swrap16_id. lia.
+      change (-32768 <= tval t) in A. change (tval t <= 32767) in B. rewrite (swrap16_id (tval t)) by lia. apply swrap16_id. lia.
     - exists 32, 32. split; [reflexivity|]. eapply Forall_impl; [|exact Rd]. intros t [A B].
-      change (-2147483648 <= snd t) in A. change (snd t <= 2147483647) in B. rewrite (swrap32_id (snd t)) by lia. apply swrap32_id. lia. }
+      change (-2147483648 <= tval t) in A. change (tval t <= 2147483647) in B. rewrite (swrap32_id (tval t)) by lia. apply swrap32_id. lia. }
   destruct C as (sb & ob & -> & Hv).
   change (scanf_bits gint_format) with (Some 32).
   rewrite (skipn_app_exact tag _ 4%nat Ht).
-  change 3%nat with (length [(w1, planes); (w2, rows); (w3, cols)]).
+  change 3%nat with (length [tp; tr; tc]).
   rewrite scan_ints_render; [| constructor; [exact G1|]; constructor; [exact G2|]; constructor; [exact G3|]; constructor | apply render_no_digit_head; [assumption|];
                                apply render_no_digit_head; assumption].
-  cbn [map snd]. rewrite !swrap32_id by lia.
+  cbn [map]. rewrite Vp, Vr, Vc. rewrite !swrap32_id by lia.
   assert (E1 : cols <? 2 = false) by (apply Z.ltb_ge; lia). assert (E2 : rows <? 2 = false) by (apply Z.ltb_ge; lia).
   rewrite E1, E2. cbn [orb].
   replace (Z.to_nat (2 + ((if 1 <? planes then planes else 0) + rows + cols))) with (length hdr) by lia.
@@ -1113,30 +1164,45 @@ Proof.
   - unfold ad_count. rewrite (ad_float_refines_spec_lemma t v1 v2 m K). reflexivity.
 Qed.
 
-Lemma attrs_loop_zero : forall a1 a2, Forall2 attr_shape a1 a2 -> attrs_diff_loop a1 a2 = 0 -> a1 = a2.
+Lemma attrs_loop_zero : forall a1 a2, length a1 = length a2 -> attrs_diff_loop a1 a2 = 0 -> a1 = a2.
 Proof.
-  induction 1 as [|x y a1 a2 (Hn & Ht & Hl) F IH]; intros E; [reflexivity|].
-  cbn [attrs_diff_loop] in E. pose proof (attrs_diff_loop_nonneg a1 a2) as NN.
-  rewrite Ht, Hl, Hn, !Z.eqb_refl, zlist_eqb_refl in E. cbn [negb orb] in E.
+  induction a1 as [|x a1 IH]; intros [|y a2] L E; try discriminate; [reflexivity|].
+  cbn [attrs_diff_loop] in E. pose proof (attrs_diff_loop_nonneg a1 a2) as NN. injection L as L.
+  unfold sds_attr_info_counted in E.
+  destruct (Z.eqb_spec (a_type x) (a_type y)) as [Ht|]; [|cbn [negb orb] in E; lia].
+  destruct (Z.eqb_spec (Z.of_nat (length (a_vals x))) (Z.of_nat (length (a_vals y)))) as [Hl|]; [|cbn [negb orb] in E; lia].
+  destruct (zlist_eqb (a_name x) (a_name y)) eqn:Hn; [|cbn [negb orb] in E; lia]. cbn [negb orb] in E.
   destruct (zlist_eqb (a_vals x) (a_vals y)) eqn:V; [|lia].
-  apply zlist_eqb_eq in V. f_equal; [destruct x, y; simpl in *; congruence | apply IH; lia].
+  apply zlist_eqb_eq in V, Hn. f_equal; [destruct x, y; simpl in *; congruence | apply IH; [assumption | lia]].
 Qed.
 
-Lemma Forall2_length {A B} (R : A -> B -> Prop) l1 l2 : Forall2 R l1 l2 -> length l1 = length l2.
-Proof. induction 1; simpl; congruence. Qed.
+Lemma sds_attrs_zero a1 a2 : sds_attrs_diff a1 a2 = 0 -> a1 = a2.
+Proof.
+  unfold sds_attrs_diff, sds_attr_number_counted.
+  destruct (Z.eqb_spec (Z.of_nat (length a1)) (Z.of_nat (length a2))) as [L|]; cbn [negb]; [|discriminate].
+  apply attrs_loop_zero. lia.
+Qed.
 
 Lemma diff_sds_zero t d v1 a1 v2 a2 :
-  v1 <> [] -> length v1 = length v2 -> elem_domain t v1 -> elem_domain t v2 -> Forall2 attr_shape a1 a2 ->
+  v1 <> [] -> length v1 = length v2 -> elem_domain t v1 -> elem_domain t v2 ->
   diff_sds_m t d v1 a1 t d v2 a2 = 0 -> v1 = v2 /\ a1 = a2.
 Proof.
-  intros NE L D1 D2 FA E. unfold diff_sds_m in E. rewrite Z.eqb_refl, zlist_eqb_refl in E. cbn [negb] in E.
+  intros NE L D1 D2 E. unfold diff_sds_m in E. rewrite Z.eqb_refl, zlist_eqb_refl in E. cbn [negb] in E.
   destruct v1 as [|x v1]; [contradiction|]. destruct v2 as [|y v2]; [discriminate|].
   pose proof (ad_count_nonneg t (zprod d) (x :: v1) (y :: v2)) as N1.
-  unfold sds_attrs_diff in E. rewrite (Forall2_length _ _ _ FA), Z.eqb_refl in E. cbn [negb] in E.
-  pose proof (attrs_diff_loop_nonneg a1 a2) as N2.
+  assert (N2 : 0 <= sds_attrs_diff a1 a2).
+  { unfold sds_attrs_diff, sds_attr_number_counted. destruct (negb _); [lia | apply attrs_diff_loop_nonneg]. }
   split.
   - apply (spec_count_zero_iff _ _ L). rewrite <- (ad_count_domain t _ _ (zprod d) D1 D2). lia.
-  - apply attrs_loop_zero; [assumption | lia].
+  - apply sds_attrs_zero. lia.
+Qed.
+
+Lemma diff_vs_zero n1 f1 v1 n2 f2 v2 : diff_vs_m n1 f1 v1 n2 f2 v2 = 0 -> n1 = n2 /\ f1 = f2 /\ v1 = v2.
+Proof.
+  unfold diff_vs_m, vs_header_counted. destruct (Z.eqb_spec n1 n2) as [->|]; cbn [negb orb]; [|discriminate].
+  destruct (list_eqb field_eqb f1 f2) eqn:F; cbn [negb]; [|discriminate].
+  destruct (zlist_eqb v1 v2) eqn:V; [|discriminate]. intros _.
+  apply (list_eqb_eq _ field_eqb_eq) in F. apply zlist_eqb_eq in V. auto.
 Qed.
 
 Lemma diff_gr_zero t c x y v1 v2 :
@@ -1156,15 +1222,14 @@ Proof.
   destruct o1 as [n1 b1], o2 as [n2 b2]. cbn [o_name o_body]. intros <- C E. f_equal.
   unfold diff_obj, diff_obj_tag, obj_tag in E. cbn [o_body] in E.
   destruct b1, b2; cbn [comparable_body] in C; try contradiction.
-  - destruct C as (<- & <- & NE & L & D1 & D2 & FA).
+  - destruct C as (<- & <- & NE & L & D1 & D2).
     change (diff_sds_m nt dims vals attrs nt dims vals0 attrs0 = 0) in E.
-    destruct (diff_sds_zero _ _ _ _ _ _ NE L D1 D2 FA E) as [-> ->]. reflexivity.
+    destruct (diff_sds_zero _ _ _ _ _ _ NE L D1 D2 E) as [-> ->]. reflexivity.
   - destruct C as (<- & <- & <- & <- & P & L1 & L2 & D1 & D2).
     change (diff_gr_m nt ncomp xdim ydim vals nt ncomp xdim ydim vals0 = 0) in E.
     rewrite (diff_gr_zero _ _ _ _ _ _ P L1 L2 D1 D2 E). reflexivity.
-  - destruct C as (<- & <-). change (diff_vs_m nrec fields vals nrec fields vals0 = 0) in E.
-    unfold diff_vs_m in E. rewrite Z.eqb_refl, (list_eqb_refl _ field_eqb_refl) in E. cbn [negb orb] in E.
-    destruct (zlist_eqb vals vals0) eqn:V; [|discriminate]. apply zlist_eqb_eq in V. subst. reflexivity.
+  - change (diff_vs_m nrec fields vals nrec0 fields0 vals0 = 0) in E.
+    destruct (diff_vs_zero _ _ _ _ _ _ E) as (-> & -> & ->). reflexivity.
   - reflexivity.
 Qed.
 
@@ -1335,4 +1400,44 @@ Proof.
     apply Z.quot_le_lower_bound; lia.
   - change (negb (0 =? 0)) with false. cbv iota. destruct (Z.eq_dec nv 0) as [->|NZ]; [reflexivity|].
     rewrite vd_loop_all; [rewrite Z.sub_0_r; reflexivity | lia | lia | lia].
+Qed.
+
+(* ------------------------------------------------------------------------------------------ *)
+(** * Lone objects are listed whatever refs other kinds of object carry; field selection has no memory *)
+
+Lemma list_lone_incl : forall c tags tag refs tbl e, In e tbl -> In e (list_lone c tags tag refs tbl).
+Proof.
+  induction refs as [|r rs IH]; intros tbl e H; [assumption|]. cbn [list_lone].
+  destruct (already_listed c tags r tbl); apply IH; [assumption | apply in_or_app; left; assumption].
+Qed.
+
+Lemma list_lone_all : forall tags tag refs tbl r, In r refs ->
+  exists t, In t (tag :: tags) /\ In (t, r) (list_lone 1 tags tag refs tbl).
+Proof.
+  induction refs as [|x rs IH]; intros tbl r H; [contradiction|]. cbn [list_lone].
+  destruct H as [->|H].
+  - destruct (already_listed 1 tags r tbl) eqn:A.
+    + unfold already_listed in A. apply existsb_exists in A. destruct A as ([t r'] & Hin & C).
+      change (1 =? 0) with false in C. cbv iota in C. cbn [fst snd] in C. apply andb_true_iff in C. destruct C as [Ct Cr].
+      apply Z.eqb_eq in Cr. subst r'. exists t. split.
+      * right. unfold zmem in Ct. apply existsb_exists in Ct. destruct Ct as (t' & Ht & E). apply Z.eqb_eq in E. subst. assumption.
+      * apply list_lone_incl. assumption.
+    + exists tag. split; [left; reflexivity|]. apply list_lone_incl. apply in_or_app. right. left. reflexivity.
+  - destruct (already_listed 1 tags x tbl); apply IH; assumption.
+Qed.
+
+Lemma lone_objects_listed_lemma : forall refs tbl r, In r refs ->
+  (exists t, In t (DFTAG_NDG :: sds_tags) /\ In (t, r) (list_lone_sds refs tbl)) /\
+  (exists t, In t (DFTAG_RI :: gr_tags) /\ In (t, r) (list_lone_gr refs tbl)).
+Proof.
+  intros refs tbl r H. unfold list_lone_sds, list_lone_gr, list_sds_checks_tag, list_gr_checks_tag.
+  split; apply list_lone_all; assumption.
+Qed.
+
+Lemma field_selection_stateless_lemma : forall prev vds chosen,
+  fields_walk prev vds chosen = map (fun fields => chosen_indices 0 fields chosen) vds.
+Proof.
+  intros prev vds chosen. revert prev. induction vds as [|f vds IH]; intros prev; [reflexivity|].
+  cbn [fields_walk map]. rewrite IH. f_equal. unfold field_indices, field_indices_reset_per_vdata.
+  change (1 =? 0) with false. cbv iota. destruct (chosen_indices 0 f chosen); reflexivity.
 Qed.
